@@ -17,7 +17,7 @@ RULE = (
     "initial value perturbed - the other chains must not change; (d) jitter functions supplied by the "
     "harness (key-ignoring shift; key-using, reporting (key,in,out) through a debug callback) for "
     "replicated and per-chain initial states; (e) the same EngineBuilder built twice; engine seed given as int, key and "
-    "per-chain key array. Also: (f) the same run in child processes under PYTHONHASHSEED 1/2/3; (g) jitter set and reset; (h) NUTS/HMC with searched initial step size in the isolation runs. non-trivial = >=2 chains, >=2 kernels and chunk < some "
+    "per-chain key array. Also: (f) the same run in child processes under PYTHONHASHSEED 1/2/3; (g) jitter set and reset; (h) NUTS/HMC with searched initial step size in the isolation runs. Round 5: (i) the caller keeps writing into the containers handed to set_initial_values. non-trivial = >=2 chains, >=2 kernels and chunk < some "
     "duration; distinct by configuration hash"
 )
 REQUIRED = ["identical_across_processes", "per_chain_keys_equal_split", "second_build_identical", "identical_runs_bitwise", "int_seed_equals_key", "all_keys_distinct",
